@@ -74,7 +74,7 @@ macro_rules! define_vec1 {
         impl AddAssign for $X1 {
             #[inline(always)]
             fn add_assign(&mut self, rhs: Self) {
-                self.0 += rhs.0;
+                self.0 = self.0.wrapping_add(rhs.0);
             }
         }
         impl BitXorAssign for $X1 {
